@@ -73,3 +73,81 @@ Print Assumptions C06_available_implies_sent.
 Print Assumptions C06_served_when_available.
 Print Assumptions C06_reexpressed_want_served_again.
 Print Assumptions C06_full_relookup.
+
+(* ---- a batch of blocks end to end over the wire (package L, Wire_blocks.v: the server connection handler of the SENDER over
+   the real codec and size estimate, composed with the IncomingStream of the RECEIVER): an honest batch arrives as exactly itself,
+   keyed by its own CIDs; a block whose data does not hash to its label never arrives under that label; for ANY history of the
+   server handler without a dropped stream the bytes the stream accepted, completed by the handler's buffer and cut into reads
+   anywhere, hand the receiver's behaviour exactly the started blocks — each once, in queue order — and nothing else.
+   Non-vacuity: Wire_blocks_props (real codec, CIDv0 and CIDv1 blocks, reads cut inside frames). *)
+From BS Require Import Bytes Varint Cid Prefix Hasher Proto Incoming Qp ProtoCodec Frame Framed Codec Frame_proofs Framed_proofs Prefix_proofs Incoming_proofs Types FramedWrite Handler_proofs ServerHandler ServerHandler_proofs ServerHandler_wire Streams Streams_proofs Net Wire_blocks.
+From Coq Require Import ZArith Lia.
+Open Scope N_scope.
+
+Theorem process_blocks_message :
+  forall (Sz : N) (Hh : hash_fn) (bl : list lblock),
+  Forall (honest Sz Hh) bl ->
+  process_message Sz Hh (blocks_message bl) = PmOk {| in_client := client_part bl; in_server := None |}.
+Proof. exact (@Wire_blocks.process_blocks_message). Qed.
+
+Theorem process_wrong_block :
+  forall (Sz : N) (Hh : hash_fn) (c : cid) (d : bytes),
+  wf_cid Sz c ->
+  valid_block Sz Hh c d = false ->
+  (exists c' : cid,
+     c' <> c /\
+     prefix_to_cid Sz Hh (prefix_of_cid c) d = TOk c' /\
+     process_message Sz Hh (blocks_message [(c, d)]) =
+     PmOk {| in_client := Some {| cm_presences := []; cm_blocks := [(c', d)] |}; in_server := None |}) \/
+  process_message Sz Hh (blocks_message [(c, d)]) = PmOk {| in_client := None; in_server := None |} \/
+  process_message Sz Hh (blocks_message [(c, d)]) = PmClose \/
+  process_message Sz Hh (blocks_message [(c, d)]) = PmPanic.
+Proof. exact (@Wire_blocks.process_wrong_block). Qed.
+
+Theorem wire_receive_blocks :
+  forall (Sz : N) (Hh : hash_fn) (chk : bool) (batches : list (list lblock)) (evs : list read_ev),
+  Forall (Forall (honest Sz Hh)) batches ->
+  Forall fits_frame batches ->
+  live evs ->
+  ev_data evs = concat (map (fun bl : list (cid * bytes) => codec_encode (blocks_message bl)) batches) ->
+  stream_out Sz Hh chk (evs ++ [Eof]) = (client_msgs batches, SfEnd).
+Proof. exact (@Wire_blocks.wire_receive_blocks). Qed.
+
+Theorem C06_wire_blocks_delivered :
+  forall (Sz : N) (Hh : hash_fn) (chk : bool) (ops : list shop) (ql : list lblock) (id : N) (buf : bytes),
+  let st := server_handler_final codec_encode wire_block_size ops in
+  let outs := server_handler_outs codec_encode wire_block_size ops in
+  queue_ok Sz Hh ops ql ->
+  no_drop outs ->
+  sh_sink st = SvReady id buf ->
+  let sb := started_batches ops ql in
+  let n := length (concat (map snd (sh_started st))) in
+  map (map erase_block) sb = map snd (sh_started st) /\
+  concat sb = firstn n ql /\
+  map erase_block (skipn n ql) = pending_list st /\
+  (forall evs : list read_ev,
+   live evs ->
+   ev_data evs = swrote_on id outs ++ buf -> stream_out Sz Hh chk (evs ++ [Eof]) = (client_msgs sb, SfEnd)).
+Proof. exact (@Wire_blocks.C06_wire_blocks_delivered). Qed.
+
+Theorem C06_wire_blocks_exactly_once :
+  forall (Sz : N) (Hh : hash_fn) (chk : bool) (ops : list shop) (ql : list lblock) (id : N) (buf : bytes),
+  let st := server_handler_final codec_encode wire_block_size ops in
+  let outs := server_handler_outs codec_encode wire_block_size ops in
+  queue_ok Sz Hh ops ql ->
+  no_drop outs ->
+  sh_sink st = SvReady id buf ->
+  NoDup (map fst ql) ->
+  forall evs : list read_ev,
+  live evs ->
+  ev_data evs = swrote_on id outs ++ buf ->
+  snd (stream_out Sz Hh chk (evs ++ [Eof])) = SfEnd /\
+  flat_map blocks_of (fst (stream_out Sz Hh chk (evs ++ [Eof]))) =
+  firstn (length (concat (map snd (sh_started st)))) ql.
+Proof. exact (@Wire_blocks.C06_wire_blocks_exactly_once). Qed.
+
+Print Assumptions process_blocks_message.
+Print Assumptions process_wrong_block.
+Print Assumptions wire_receive_blocks.
+Print Assumptions C06_wire_blocks_delivered.
+Print Assumptions C06_wire_blocks_exactly_once.
